@@ -95,6 +95,18 @@ RECURSIVE NeedFrom(_, _, _)
 NeedFrom(p, s, k) == IF s = 0 THEN k ELSE NeedFrom(p, s - 1, NeedOf(p[s], k) + LookaheadOf(p[s]))
 Need(p, k) == NeedFrom(p, Len(p), k)
 
+\* The property itself only promises "k plus a SMALL CONSTANT": an implementation may read a few rows ahead in every
+\* stage (block-wise pulling, one row of lookahead in a filter ...).  Small is that constant per stage; the property-level
+\* bound composes it through the stages exactly like the lookahead (a stage that over-reads asks its upstream for more).
+\* 16 = an order of magnitude above the largest lookahead of the code as found (1) and far below every sample / batch
+\* size petl uses (1000), so that reading a whole sample or chunk is still refused.
+Small == 16
+RECURSIVE NeedFromS(_, _, _)
+NeedFromS(p, s, k) == IF s = 0 THEN k ELSE NeedFromS(p, s - 1, NeedOf(p[s], k) + LookaheadOf(p[s]) + Small)
+NeedS(p, k) == NeedFromS(p, Len(p), k)
+\* the exact model is within the tolerant bound, for every pipeline
+ASSUME \A p \in Pipelines : \A k \in 1..MaxK : Need(p, k) <= NeedS(p, k)
+
 \* C02: pulls for k requested rows are bounded by the composed need (which does not mention L) ...
 PullBound == got[1] <= Min(L, Need(pipe, asked))
 \* ... nothing is pulled before the first row is requested (construction reads no data row)
@@ -107,4 +119,5 @@ Tight == delivered = asked /\ asked > 0 /\ Need(pipe, asked) <= L => got[1] = Ne
 
 \* case emission: for every pipeline and k the bound, for replay on real operator compositions
 Bounds(p) == [k \in 1..MaxK |-> Need(p, k)]
+TolerantBounds(p) == [k \in 1..MaxK |-> NeedS(p, k)]
 =============================================================================
